@@ -36,8 +36,10 @@ def base_scenarios(rng, n):
                 op['init'] = True
                 op['init_dur'] = 0.02
             # what the pool is used for afterwards: joining it, another call
-            follow = rng.choice([[], [{'op': 'stop_and_join'}], [{'op': 'map', 'n': 4, 'chunk_size': 1}],
-                                 [{'op': 'apply_batch', 'tasks': [{'idx': 7}, {'idx': 8}], 'dur': {'kind': 'map', 'map': {}, 'default': 0.01}, 'get_timeout': 30}, {'op': 'stop_and_join'}]])
+            # (stratified: the two apply bases of every run of seven are followed by a join and by a map call; further ones cycle on)
+            follows = [[{'op': 'stop_and_join'}], [{'op': 'map', 'n': 4, 'chunk_size': 1}],
+                       [{'op': 'apply_batch', 'tasks': [{'idx': 7}, {'idx': 8}], 'dur': {'kind': 'map', 'map': {}, 'default': 0.01}, 'get_timeout': 30}, {'op': 'stop_and_join'}], []]
+            follow = follows[(b // len(kinds) * 2 + (0 if b % len(kinds) == 0 else 1)) % len(follows)]
             out.append({'seed': rng.randint(0, 10 ** 6), 'pool': pool, 'ops': [op] + follow, 'judge_op': 0, 'same_func': True})
             continue
         else:
